@@ -103,6 +103,54 @@ example :
     fmtAsBool 100 [] (.list [.str "false"]) = .ok true := by
   decide +kernel
 
+/-! ## every form of a decorator value (round 5) -/
+
+/-- **A container literal is judged as written - its members are never looked at.** For every context, every
+    fuel and every list of members (strings with formatting expressions that cannot be resolved, stray braces,
+    `!py` tags whose evaluation would fail or have side effects - anything): a list / tuple / set / mapping
+    given for `run`, `skip`, `swallow`, `stop`, `errorOnMax` or a switch `case` evaluates WITHOUT error to
+    "is it non-empty". -/
+theorem fmtAsBool_container_literal (fuel : Nat) (ctx : Ctx) (xs : List Val) (kvs : List (Val × Val)) :
+    fmtAsBool fuel ctx (.list xs) = .ok (!xs.isEmpty) ∧ fmtAsBool fuel ctx (.tuple xs) = .ok (!xs.isEmpty) ∧
+    fmtAsBool fuel ctx (.set xs) = .ok (!xs.isEmpty) ∧ fmtAsBool fuel ctx (.dict kvs) = .ok (!kvs.isEmpty) :=
+  ⟨rfl, rfl, rfl, rfl⟩
+
+/-- **A value that is neither a special tag nor a string never depends on the context** (nor on the fuel):
+    nothing is formatted, the verdict is the value's own truthiness and there is no error case. -/
+theorem fmtAsBool_literal_ignores_context (fuel fuel' : Nat) (ctx ctx' : Ctx) (v : Val)
+    (ht : isSpecialTag v = false) (hs : ∀ t, v ≠ .str t) :
+    fmtAsBool fuel ctx v = .ok v.truthy ∧ fmtAsBool fuel ctx v = fmtAsBool fuel' ctx' v := by
+  have h := fun f c => (fmtAsBool_dispatch f c v).2.2 ht hs
+  exact ⟨h fuel ctx, by rw [h fuel ctx, h fuel' ctx']⟩
+
+/-- **A special tag (`!py`, `!sic`, `!jsonify`) whose result is a string is true iff that string is
+    non-empty** - the text rule (`true` / `1` / `1.0`) is for decorators WRITTEN as strings only: a mode name
+    taken from context through `!py mode` is true whatever its text (unless empty). -/
+theorem fmtAsBool_tag_yielding_text (fuel : Nat) (ctx : Ctx) (v : Val) (t : String)
+    (ht : isSpecialTag v = true) (hv : fmtVal fuel ctx v = .ok (.str t)) :
+    fmtAsBool fuel ctx v = .ok (t != "") := by
+  rw [(fmtAsBool_dispatch fuel ctx v).1 ht, hv]; rfl
+
+/-- ... and the same text reached through a string expression goes by the text rule. -/
+theorem fmtAsBool_expr_yielding_text (fuel : Nat) (ctx : Ctx) (e t : String)
+    (hv : fmtVal fuel ctx (.str e) = .ok (.str t)) :
+    fmtAsBool fuel ctx (.str e) = .ok (castToBool (.str t)) :=
+  ((fmtAsBool_dispatch fuel ctx (.str e)).2.1 e rfl).2.2 _ hv (fun b h => by cases h)
+
+/-- the forms side by side on one context: `!py mode` with mode = 'ignore' is true, `'{mode}'` is false;
+    a list literal holding an unresolvable expression, a stray brace, a `!py` of an unknown name is true and no
+    error; the empty containers are false; `!sic 'false'` is true. -/
+example :
+    let ctx : Ctx := [("mode", .str "ignore"), ("flag", .str "TRUE")]
+    fmtAsBool 100 ctx (.py (.name "mode")) = .ok true ∧ fmtAsBool 100 ctx (.str "{mode}") = .ok false ∧
+    fmtAsBool 100 ctx (.py (.name "flag")) = .ok true ∧ fmtAsBool 100 ctx (.str "{flag}") = .ok true ∧
+    fmtAsBool 100 ctx (.list [.str "{no_such_key}"]) = .ok true ∧ fmtAsBool 100 ctx (.list [.str "{"]) = .ok true ∧
+    fmtAsBool 100 ctx (.list [.py (.name "no_such_name")]) = .ok true ∧
+    fmtAsBool 100 ctx (.dict [(.str "a", .str "{no_such_key}")]) = .ok true ∧
+    fmtAsBool 100 ctx (.list []) = .ok false ∧ fmtAsBool 100 ctx (.dict []) = .ok false ∧
+    fmtAsBool 100 ctx (.sic "false") = .ok true := by
+  decide +kernel
+
 /-! ## run and skip decide, at the moment of each execution -/
 
 /-- **The body executes iff `run` evaluates true and `skip` evaluates false**, both evaluated on
